@@ -350,6 +350,11 @@ func (s *grpcServer) fillDirectories(ctx context.Context, resp *pb.GetTreeRespon
 	// Recursively append all the child dirs.
 	for _, dirNode := range dir.Directories {
 
+		if dirNode == nil || dirNode.Digest == nil {
+			s.accessLogger.Printf("%s DIRECTORY NODE WITHOUT DIGEST", errorPrefix)
+			continue
+		}
+
 		err := s.validateHash(dirNode.Digest.Hash, dirNode.Digest.SizeBytes, errorPrefix)
 		if err != nil {
 			return err
